@@ -326,7 +326,6 @@ func (idx *HNSWIndex) Remove(vector VectorNode) error {
 	_, exists := idx.nodes[id]
 	alreadyDeleted := idx.deletedNodes.Contains(id)
 	idx.mu.RUnlock()
-	verifPoint("hnsw:remove:window")
 
 	// Fast-fail validation outside of write lock
 	if !exists {
